@@ -54,6 +54,17 @@ fn proj(kind: ProjKind, subject: RefExpr, rhs: RefExpr) -> RefExpr {
 /// Numbers for typed documents: small pool with many duplicates, both integer
 /// and float spelling of the same value, negatives and fractions.
 pub fn schema_number(src: &mut Src) -> J {
+    if src.chance(5) {
+        // huge well-separated integers (up to u64::MAX) and magnitudes next to zero
+        return match src.below(6) {
+            0 => J::Num(N::Int(9223372036854775808)),
+            1 => J::Num(N::Int(18446744073709551615)),
+            2 => J::Num(N::Int(12000000000000000000)),
+            3 => J::Num(N::Int(-9223372036854775808)),
+            4 => J::f(1e-17),
+            _ => J::f(-2e-300),
+        };
+    }
     match src.weighted(&[8, 4, 4, 1]) {
         0 => J::int(src.range(-3, 6)),
         1 => J::f(src.range(-3, 6) as f64),
